@@ -18,7 +18,9 @@ OPTS_OK = [('StringPrefixLenType', 'u8'), ('ArrayPrefixLenType', 'u32'), ('Littl
            ('FixedStringPadFromLeft', 'true'), ('FixedStringPadChar', "'0'"), ('FixedStringPadChar', "' '"), ('FixedStringPadChar', "'\\x00'"),
            ('StringPrefixLenType', 'u64'), ('ArrayPrefixLenType', 'u16')]
 OPTS_BAD = [('StringPrefixLenType', 'i8'), ('ArrayPrefixLenType', 'string'), ('LittleEndian', '1'), ('LittleEndian', '"yes"'),
-            ('FixedStringPadFromLeft', '0'), ('FixedStringPadChar', '"x"'), ('StringPrefixLenType', 'uint16'), ('ArrayPrefixLenType', 'char[4]')]
+            ('FixedStringPadFromLeft', '0'), ('FixedStringPadChar', '"x"'), ('StringPrefixLenType', 'uint16'), ('ArrayPrefixLenType', 'char[4]'),
+            ('FixedStringPadChar', '0'), ('FixedStringPadChar', '7'), ('FixedStringPadChar', '""'), ('FixedStringPadChar', "''"), ('FixedStringPadChar', 'x'),
+            ('ArrayPrefixLenType', 'uint8'), ('LittleEndian', 'TRUE')]
 
 AUX = '''packet Other {
     u8 v,
@@ -54,6 +56,10 @@ def field_variants():
             add('meta_%s_doc' % t, ['%s a `the doc`,' % t])
         if i % 2 == 0:
             add('meta_%s_rep' % t.replace('[', '').replace(']', ''), ['repeat %s a,' % t])
+    for t in ['char[0]', 'zchar[0]', 'char[00]', 'char[1]', 'zchar[1]', 'char[010]']:
+        add('meta_%s' % t.replace('[', '_').replace(']', ''), ['%s a,' % t], wf=t in ('char[1]', 'zchar[1]'))
+    add('meta_char0_attr', ["@leftPad('0')", 'char[0] a,'], wf=False)
+    add('meta_char0_rep', ['repeat char[0] a,'], wf=False)
     # attributes
     for side in ('left', 'right'):
         for ch in ("'0'", "' '", "'\\x00'", ''):
